@@ -370,12 +370,19 @@ func (c10) Run(c *fw.Ctx) {
 		c.Violationf("sum-cli-items", det, "sum printed %d items, the pattern matches %d (%v)", len(out.Nows), len(wantItems), wantItems)
 		return
 	}
-	for ii, it := range wantItems {
-		nl := out.Nows[ii]
-		if nl.Name != dotted(it) {
-			c.Violationf("sum-cli-items", det, "item %d is reported as %q, want %q", ii, nl.Name, dotted(it))
+	for _, it := range wantItems {
+		// items are matched by name (their order in the output is not part of the property)
+		ii := -1
+		for k := range out.Nows {
+			if out.Nows[k].Name == dotted(it) {
+				ii = k
+			}
+		}
+		if ii < 0 {
+			c.Violationf("sum-cli-items", det, "item %q does not appear in the output", dotted(it))
 			return
 		}
+		nl := out.Nows[ii]
 		u := until
 		if u == 0 {
 			u = nl.Now
@@ -386,7 +393,13 @@ func (c10) Run(c *fw.Ctx) {
 		if ii+1 < len(out.Nows) {
 			end = out.Nows[ii+1].PointsFrom
 		}
-		got := out.Points[nl.PointsFrom:end]
+		got := append([]pointLine(nil), out.Points[nl.PointsFrom:end]...)
+		sort.SliceStable(got, func(i, j int) bool {
+			if got[i].Arch != got[j].Arch {
+				return got[i].Arch < got[j].Arch
+			}
+			return got[i].T < got[j].T
+		})
 		var wantPts []pointLine
 		for ai := range want {
 			if want[ai] == nil {
